@@ -20,9 +20,9 @@ import vlib
 from pydec import build_xlsx, decode_extract
 
 CORPUS = "/repo/tests/test_files"          # the corpus is data; the library under test is vlib.REPO
-BIG = {"aaa_large.xlsx", "issue_233.xlsx", "issue_216.xlsx", "issue_188_3.xlsx"}
+BIG = {"aaa_large.xlsx", "issue_233.xlsx"}          # thorough tier only
 BATCH = 200
-MUST_TAKE = ["AddSstItem", "AddCell", "Finish"]
+MUST_TAKE = ["AddCell", "Finish"]
 MAXROW, MAXCOL = 1048576, 16384
 
 
@@ -362,7 +362,10 @@ def tlc_models(chk):
     quick = chk.tier == "quick"
     models = []
     t0 = time.time()
-    for cfg in ("MC_Decode_replay.cfg", "MC_Decode_replay_shared.cfg", "MC_Decode_replay_attrs.cfg"):
+    cfgs = ["MC_Decode_replay.cfg", "MC_Decode_replay_shared.cfg", "MC_Decode_replay_attrs.cfg"]
+    if not quick:
+        cfgs.append("MC_Decode_replay_d2.cfg")
+    for cfg in cfgs:
         r = vlib.run_tlc("MC_Decode", cfg, workers=4, coverage=False, timeout=1800)
         if not r.ok or not r.replays:
             raise vlib.ToolError(f"file generation with {cfg} failed: " + (r.violation or r.out[-500:]))
@@ -455,11 +458,15 @@ def judge(chk, scripts):
 
 
 def run(chk):
-    vlib.tlc_mc("MC_Decode", "MC_Decode.cfg", workers=4, must_take=MUST_TAKE, check=chk)
+    vlib.tlc_mc("MC_Decode", "MC_Decode.cfg", workers=4, must_take=MUST_TAKE + ["AddSstItem"], check=chk)
     vlib.tlc_mc("MC_Decode", "MC_Decode_shared.cfg", workers=4, must_take=MUST_TAKE + ["AddSharedBlock"], check=chk)
     vlib.tlc_mc("MC_Decode", "MC_Decode_opts.cfg", workers=4, must_take=MUST_TAKE + ["SetOpt", "SetXmlSpace", "AddEntityAttr"],
                 check=chk)
     quick = chk.tier == "quick"
+    if not quick:
+        vlib.tlc_mc("MC_Decode", "MC_Decode_thorough.cfg", workers=4, must_take=MUST_TAKE + ["AddSstItem"], timeout=3600, check=chk)
+        vlib.tlc_mc("MC_Decode", "MC_Decode_shared_thorough.cfg", workers=4, must_take=MUST_TAKE + ["AddSharedBlock", "SetOpt"],
+                    timeout=3600, check=chk)
     models = kf_models() + tlc_models(chk) + random_models(chk.rng, 300 if quick else 6000)
     scripts = [{"kind": "gen", "model": m} for m in models] + [{"kind": "corpus", "path": p} for p in corpus_paths(chk)]
     stats = judge(chk, scripts)
